@@ -357,6 +357,7 @@ class Interp(OpsMixin, BuiltinsMixin):
     def st_FunctionDef(self, s, frame):
         kind = "function"
         prop = None
+        prop_base = None
         memo = False
         other_decorators = []
         for d in s.decorator_list:
@@ -368,6 +369,7 @@ class Interp(OpsMixin, BuiltinsMixin):
                 prop = "get"
             elif isinstance(d, ast.Attribute) and d.attr == "setter":
                 prop = "set"
+                prop_base = d.value        # `@x.setter`: a copy of the property bound to x, whatever this function is called
             elif dname in ("lru_cache", "cache", "cached_property", "memoize", "memoized"):
                 memo = True      # functools memoisation: results are shared between calls with equal arguments
                 if dname == "cached_property":
@@ -388,7 +390,10 @@ class Interp(OpsMixin, BuiltinsMixin):
         if prop == "get":
             self.bind_name(s.name, PropertyVal(fget=f), frame)
         elif prop == "set":
-            old = self.lookup_name(s.name, frame, default=None)
+            try:
+                old = self.eval(prop_base, frame)
+            except PyRaise:
+                old = None
             if isinstance(old, PropertyVal):
                 self.bind_name(s.name, PropertyVal(fget=old.fget, fset=f), frame)
             else:
@@ -456,9 +461,17 @@ class Interp(OpsMixin, BuiltinsMixin):
                     for k, v in zip(n.args[0].keys, n.args[0].values):
                         if isinstance(k, ast.Constant) and isinstance(v, ast.Name) and v.id in local_classes:
                             cd = local_classes[v.id]
-                            fr = Frame(self, c.module)
-                            bases = [self.eval(b, fr) for b in cd.bases]
-                            ec = ClassVal(cd.name, c.module, bases, node=cd)
+                            fr = Frame(self, c.module, func=new, locals_={})
+                            ec = None
+                            try:
+                                # the class statement itself, as __new__ executes it (its body: methods, attributes)
+                                self.exec_stmt(cd, fr)
+                                ec = fr.locals.get(cd.name)
+                            except PyRaise:
+                                ec = None
+                            if not isinstance(ec, ClassVal):
+                                bases = [self.eval(b, Frame(self, c.module)) for b in cd.bases]
+                                ec = ClassVal(cd.name, c.module, bases, node=cd)
                             ec.qualname = "%s:%s.%s" % (c.module.name, c.name, cd.name)
                             ec.injected_into = owner
                             out[k.value] = ec
